@@ -121,7 +121,11 @@ func main() {
 		go worker(jobs, out)
 	}
 	// 结果工作器
-	go filepath.Walk(inputPath, func(p string, _ os.FileInfo, _ error) error {
+	go filepath.Walk(inputPath, func(p string, fInfo os.FileInfo, _ error) error {
+		// 与 toBeTestFileNum 保持一致：目录（即使名称以 .bin/.dat 结尾）不是样本
+		if fInfo == nil || fInfo.IsDir() {
+			return nil
+		}
 		if strings.HasSuffix(p, ".bin") || strings.HasSuffix(p, ".dat") {
 			jobs <- p
 		}
